@@ -68,3 +68,8 @@ claim("C11",
       "All action sequences with <= L operations (local transactions with every mix of 1..3 ops incl. insert-then-delete, a remote author, E syncing from D, deliveries of E's updates in any order incl. gaps) over txt/rtx/uni/arr/map/nest/xml with Bytes and Utf16 offsets are executed; observers on every root and deep observers on array/map/xml roots evaluate delta()/keys()/path() inside the callback; the shadow of every observer, updated only by applying the scripts (deep events at their paths), must equal the content after every transaction; at most one event per observer and transaction; none for unchanged types (one narrow known finding: empty scripts for transactions without net visible effect).",
       "direct observers compared shallowly, deep ones fully; old values compared by kind for containers (they are read after the transaction)",
       "DESIGN.md 4/C11")
+claim("C14",
+      "bounded-exhaustive history enumeration + subset-lattice delivery; every (creation point, index, association) x every later replica state",
+      "For every prefix of every visited history over txt/uni/arr/xml-children (Bytes and Utf16 offsets, 2..3 replicas) a sticky index is created at every index with both associations (plus type-scoped ones), round-tripped through binary and JSON, its anchor checked, and then resolved on every later state of every replica and on every lattice node of the final pool that has integrated the anchor; the offset must equal the tombstone-aware position computed from the hook's item sequence.",
+      "expected positions from the verif hook's item sequence; anchors inside deleted containers out of scope",
+      "DESIGN.md 4/C14")
